@@ -30,7 +30,7 @@ Explains(e) ==
            ELSE TRUE                                                              \* the denoted instant is not representable: nothing is required
      \* a year of more than six digits (the largest representable year has six): every other part is valid, the text must be refused
      \/ /\ e.op = "parse2822_bigyear"
-        /\ Len(e.f.yt) > 6 /\ (\A i \in 1..Len(e.f.yt) : e.f.yt[i] \in 0..9)
+        /\ ~LongOK(e.f.yt) /\ (\A i \in 1..Len(e.f.yt) : e.f.yt[i] \in 0..9)
         /\ Gen(e.f, e.c) = e.s
         /\ Has(e.r, "err")
      \/ e.op = "parse2822_any"
